@@ -1148,4 +1148,93 @@ theorem wholeRun_sync2 (evs : List (Nat × LoopEv)) : ∀ (wc : XWorld × Ctl), 
       simpa [wholeRun] using this
     · exact fun y hy => hev y (List.mem_cons_of_mem _ hy)
 
+/-! ### composing rounds the way the implementation composes them
+
+  In Python `new_ike_sa` is a reference.  Once the successor is in the table it is the table entry (and evolves as that entry); once it
+  has ended it is of no further consequence.  The replay of every loop iteration therefore hands the model a successor only while it is
+  *pending* (harness: `r_xent` / `r_sa` — "a successor that is already a table entry, or has ended: none").  A run of several rounds of
+  the model has to do the same between rounds, or the copy in the table entry goes stale: `normSas` drops the successor reference of
+  every entry that is past its hand-over. -/
+
+theorem normSas_core (c : List Sa) : (normSas c).map (·.core) = c.map (·.core) := by
+  unfold normSas
+  rw [List.map_map]
+  apply List.map_congr_left
+  intro s _
+  simp only [Function.comp]
+  split <;> rfl
+
+theorem pendSpi_norm (s : Sa) : pendSpi (if inPost s.core.st then { s with succ := none } else s) = pendSpi s := by
+  by_cases h : inPost s.core.st
+  · rw [if_pos h]; unfold pendSpi; rw [if_pos h, if_pos h]
+  · rw [if_neg h]
+
+theorem allSpis_norm (c : List Sa) : allSpis (normSas c) = allSpis c := by
+  unfold allSpis normSas
+  rw [List.flatMap_map]
+  induction c with
+  | nil => rfl
+  | cons s rest ih =>
+    rw [List.flatMap_cons, List.flatMap_cons, ih, pendSpi_norm]
+    congr 2
+    split <;> rfl
+
+theorem tableKeys_norm (c : List Sa) : tableKeys (normSas c) = tableKeys c := by
+  unfold tableKeys normSas
+  rw [List.flatMap_map]
+  induction c with
+  | nil => rfl
+  | cons s rest ih =>
+    rw [List.flatMap_cons, List.flatMap_cons, ih]
+    congr 1
+    split <;> rfl
+
+theorem TW2.norm {c : List Sa} {w : XWorld} {K : List Key} (h : TW2 c w K) : TW2 (normSas c) w K where
+  spis := by rw [allSpis_norm]; exact h.spis
+  objs := by
+    intro s' hs'
+    obtain ⟨s, hs, rfl⟩ := List.mem_map.mp hs'
+    have := h.objs s hs
+    split <;> exact this
+  pend := by
+    intro s' hs' hnp n hn
+    obtain ⟨s, hs, rfl⟩ := List.mem_map.mp hs'
+    by_cases hp : inPost s.core.st
+    · rw [if_pos hp] at hnp; exact absurd hp hnp
+    · rw [if_neg hp] at hnp hn ⊢; exact h.pend s hs hnp n hn
+  stored := by
+    intro s' hs' n hn
+    obtain ⟨s, hs, rfl⟩ := List.mem_map.mp hs'
+    by_cases hp : inPost s.core.st
+    · rw [if_pos hp] at hn; cases hn
+    · rw [if_neg hp] at hn ⊢; exact h.stored s hs n hn
+  sad := by intro k; rw [tableKeys_norm]; exact h.sad k
+  nodup := by rw [tableKeys_norm]; exact h.nodup
+
+theorem allListed_norm (c : List Sa) : AllListed (normSas c) := by
+  intro s' hs' hp n hn
+  obtain ⟨s, hs, rfl⟩ := List.mem_map.mp hs'
+  by_cases hq : inPost s.core.st
+  · rw [if_pos hq] at hn; cases hn
+  · rw [if_neg hq] at hp; exact absurd hp hq
+
+/-- in sync, and no entry past its hand-over carries a successor reference (the state between two rounds) -/
+def Sync3 (wc : XWorld × Ctl) : Prop := Sync2 wc ∧ AllListed wc.2.sas
+
+theorem wholeStep2_sync (wc : XWorld × Ctl) (x : Nat × LoopEv) (h : Sync3 wc) (hev : EvCoherent x.2) : Sync3 (wholeStep2 wc x) := by
+  have h1 := wholeStep_sync2 wc x h.1 h.2 hev
+  refine ⟨?_, allListed_norm _⟩
+  unfold wholeStep2 Sync2
+  rcases h1 with hcl | hT
+  · exact Or.inl hcl
+  · exact Or.inr hT.norm
+
+theorem wholeRun2_sync (evs : List (Nat × LoopEv)) : ∀ (wc : XWorld × Ctl), Sync3 wc → (∀ x ∈ evs, EvCoherent x.2) →
+    Sync3 (wholeRun2 wc evs) := by
+  induction evs with
+  | nil => intro wc h _; exact h
+  | cons x rest ih =>
+    intro wc h hev
+    exact ih _ (wholeStep2_sync wc x h (hev x (List.mem_cons_self ..))) (fun y hy => hev y (List.mem_cons_of_mem _ hy))
+
 end PyIkev2.Impl
